@@ -64,6 +64,9 @@ type Config struct {
 	Kex    kex.Suite
 	Cipher kex.CipherSuiteID
 	Reuse  bool // false: 66 carries an HMAC
+	// OwnerRole names the key (env.Key role) that currently owns the device's voucher; "" = "owner". With a voucher
+	// extended beyond the deployment's owner, "owner" is a FORMER owner.
+	OwnerRole string
 }
 
 // sess is the client-side context of one protocol session.
@@ -144,7 +147,7 @@ func isStart(m int) bool   { return m == 10 || m == 20 || m == 30 || m == 60 }
 func tunnelled(m int) bool { return m >= 65 && m <= 254 }
 
 var faults = map[int][]string{
-	22:  {"to0d-hash", "nonce", "to1d-signer-stranger", "to1d-signer-mfg", "to1d-sig-flip", "no-entries", "entry-sig-flip", "ttl-zero", "header-from-other-voucher", "to1d-sig-short"},
+	22:  {"to0d-hash", "nonce", "to1d-signer-stranger", "to1d-signer-mfg", "to1d-sig-flip", "no-entries", "entry-sig-flip", "ttl-zero", "header-from-other-voucher", "to1d-sig-short", "to1d-signer-former-owner"},
 	30:  {"unknown-guid"},
 	32:  {"nonce", "ueid-guid", "ueid-type", "signer", "sig-flip", "no-nonce-claim", "null-payload", "other-device", "nonce-type"},
 	60:  {"unknown-guid", "kex-invalid", "cipher-unknown", "sigtype-mismatch"},
@@ -161,7 +164,7 @@ var faults = map[int][]string{
 func Faults(msg int) []string {
 	out := append([]string{"garbage", "empty", "truncated"}, faults[msg]...)
 	if tunnelled(msg) {
-		out = append(out, "plaintext", "wrong-keys", "bitflip", "enc-garbage", "enc-truncated")
+		out = append(out, "plaintext", "wrong-keys", "zero-keys", "bitflip", "enc-garbage", "enc-truncated")
 	}
 	return out
 }
@@ -179,6 +182,8 @@ func (d *Driver) Undetectable(msg int, fault string) bool {
 		// kex.Suite.Valid accepts every suite for RSA owner keys (tracked under C09), so the server cannot tell
 		_, isRSA := d.dev.Key.Public().(*rsa.PublicKey)
 		return isRSA
+	case msg == 22 && fault == "to1d-signer-former-owner":
+		return d.cfg.OwnerRole == "" || d.cfg.OwnerRole == "owner" // with an unextended voucher "owner" IS the current owner
 	case msg == 64 && fault == "xb-garbage":
 		return d.cfg.Kex == kex.DHKEXid14Suite || d.cfg.Kex == kex.DHKEXid15Suite
 	}
@@ -367,11 +372,15 @@ func (d *Driver) wrap(msg int, bc *sess, b built, fault string) (body []byte, en
 		}
 		switch {
 		case fault == "plaintext":
-		case fault == "wrong-keys":
+		case fault == "wrong-keys" || fault == "zero-keys":
 			cs := d.cfg.Cipher.Suite()
-			c := kex.SessionCrypter{ID: d.cfg.Cipher, Cipher: cs, SEK: rnd(int(cs.EncryptAlg.KeySize()))}
+			key := rnd
+			if fault == "zero-keys" { // what a half-initialised session object might hold
+				key = func(n int) []byte { return make([]byte, n) }
+			}
+			c := kex.SessionCrypter{ID: d.cfg.Cipher, Cipher: cs, SEK: key(int(cs.EncryptAlg.KeySize()))}
 			if cs.MacAlg != 0 {
-				c.SVK = rnd(int(cs.MacAlg.KeySize()))
+				c.SVK = key(int(cs.MacAlg.KeySize()))
 			}
 			body, _ = seal(c, body)
 		case bc.has65:
